@@ -1975,7 +1975,11 @@ fn c14_items(tier: Tier) -> Vec<Deletion> {
     // the ',' after the first %scan/%substr argument: reported at the call's closing ')'
     for head in ["%scan", "%qscan", "%kscan", "%qkscan", "%substr", "%qsubstr", "%ksubstr", "%qksubstr"] {
         for f in FILLERS {
-            for arg in ["a", "a b", "&v", "(x,y)", "%m(1)", "(&a,b)", "('x',y)", "(/*c*/x,y)", "(%m(1),y)", "(&a,b) c"] {
+            for arg in [
+                "a", "a b", "&v", "(x,y)", "%m(1)", "(&a,b)", "('x',y)", "(/*c*/x,y)", "(%m(1),y)", "(&a,b) c",
+                // a group closed in a later text section that ends at a further section boundary
+                "(&a)&b", "(&a)\"s\"", "(&a.x)/*c*/", "(%m(1),y)&z", "((&a)&b)&c",
+            ] {
                 for fo in ["", ";", " x"] {
                     let before = format!("%let x={head}{f}({f}{arg}");
                     let at = before.len();
